@@ -60,7 +60,7 @@ def decode_out(s):
     return unhex(s)
 
 
-def apply_transforms(v, parts):
+def apply_transforms(v, parts, regs=None):
     v = bytearray(v)
     for t in parts:
         f = t.split(":")
@@ -87,6 +87,19 @@ def apply_transforms(v, parts):
             if i >= len(v) or len(b) != 1:
                 raise ValueError("set out of range")
             v[i] = b[0]
+        elif op in ("rotl", "rotr"):
+            if v:
+                k = int(f[1]) % len(v)
+                if op == "rotr":
+                    k = (len(v) - k) % len(v)
+                v = v[k:] + v[:k]
+        elif op == "rev":
+            v.reverse()
+        elif op in ("catreg", "prereg"):
+            other = regs[t.split(":", 1)[1]]
+            if isinstance(other, Opaque):
+                raise ValueError("opaque register in transform")
+            v = v + bytearray(other) if op == "catreg" else bytearray(other) + v
         else:
             raise ValueError("unknown transform " + op)
     return bytes(v)
@@ -109,12 +122,12 @@ def decode_bytes(arg, regs):
         v = unhex(b)[:1] * int(n)
     else:
         v = unhex(base)
-    return apply_transforms(v, parts[1:]) if len(parts) > 1 else v
+    return apply_transforms(v, parts[1:], regs) if len(parts) > 1 else v
 
 
 BYTE_ARGS = {
     "ikm", "rng", "sk", "pk", "bytes", "psk", "pskid", "pkr", "sks", "pks", "skr", "enc", "info",
-    "pt", "aad", "ct", "tag", "exctx", "key", "bn", "es",
+    "pt", "aad", "ct", "tag", "exctx", "key", "bn", "es", "pks2", "pks3", "pks4",
 }
 
 # ---------------------------------------------------------------------------
